@@ -87,7 +87,8 @@ def run(ctx):
             "version/level/mask assignment, get_matrix, caller mutation of modules, make_image, print_ascii, another object compiling) from two constructors, cold and warm "
             "process-wide cache, plus seeded random histories of length <= 40 with varied payloads/versions/masks. "
             "P2: Model.step state machine vs the real object on every output and the final state (hashes of matrices); "
-            "P3: after every make() in a history, modules / version / error = those of a fresh object with the same settings "
+            "P3: after every make() in a history - and after every rendering call that directly follows a make() that raised (an "
+            "implicit compile) -, modules / version / error = those of a fresh object with the same settings "
             "and data in a FRESH PROCESS (pristine fork server: no symbol was ever produced there). distinct = distinct histories")
     import_impl()
     big, small = objrun.shortcut_op(b"shortcut payload that needs a larger symbol than version 1 .."), objrun.shortcut_op(b"hi")
